@@ -395,7 +395,8 @@ class _PmatrxNuclideIO:
         elif order == 2:
             return self._nuclide.linearAnisotropicProduction
         else:
-            return self._nuclide.nOrderProductionMatrix[order]
+            # empty while reading: rwMatrix allocates the matrix when handed None
+            return self._nuclide.nOrderProductionMatrix.get(order)
 
     def _setProductionMatrix(self, order, matrix):
         if order == 1:
